@@ -24,6 +24,22 @@ func checkC12(p *Program, r *Report) {
 		}
 	}
 	var asserted []types.Type
+	inIndex := func(g *ssa.Function) bool { return pkgPathOf(g) == indexPath }
+	indexReach := func(f *ssa.Function) map[*ssa.Function]bool {
+		seen := map[*ssa.Function]bool{}
+		var walk func(g *ssa.Function)
+		walk = func(g *ssa.Function) {
+			if g == nil || seen[g] || !inIndex(g) || len(g.Blocks) == 0 {
+				return
+			}
+			seen[g] = true
+			for _, c := range callsIn(g) {
+				walk(calleeOf(c))
+			}
+		}
+		walk(f)
+		return seen
+	}
 	for _, m := range []string{"Get", "RangeGet"} {
 		f := p.Method(p.Index, "SlimIndex", m)
 		tf := p.Method(p.Trie, "SlimTrie", m)
@@ -33,97 +49,84 @@ func checkC12(p *Program, r *Report) {
 			continue
 		}
 		r.Func(shortFn(f))
-		var key *ssa.Parameter
-		for _, prm := range f.Params {
-			if isStringType(prm.Type()) {
-				key = prm
-			}
-		}
-		// the trie lookup
-		var lookup *ssa.Call
-		var others []string
-		for _, c := range callsIn(f) {
-			call, ok := c.(*ssa.Call)
-			if !ok {
-				continue
-			}
-			if g := calleeOf(call); g != nil && inSlim(g) {
-				if g == tf && len(call.Call.Args) == 2 && call.Call.Args[1] == key {
-					lookup = call
+		reach := indexReach(f)
+		// routing: the only trie lookups under this method (helpers of package index included) are tf(key)
+		var lookups, others []string
+		for g := range reach {
+			r.Func(shortFn(g))
+			for _, c := range callsIn(g) {
+				h := calleeOf(c)
+				if h == nil || !inSlim(h) || inIndex(h) {
+					continue
+				}
+				if h == tf {
+					lookups = append(lookups, shortFn(g))
 				} else {
-					others = append(others, shortFn(g))
+					others = append(others, shortFn(h))
 				}
 			}
-		}
-		rule("C12.route")
-		r.Check(lookup != nil && len(others) == 0, "(*index.SlimIndex)."+m+" routing", p.Pos(f.Pos()), "calls (*SlimTrie)."+m+"(key) and no other library function",
-			fmt.Sprintf("does not answer from (*SlimTrie).%s(key) alone (other calls: %v)", m, others))
-		rule("C12.verify")
-		if lookup == nil {
-			r.Bad("(*index.SlimIndex)."+m+" answers through the reader", p.Pos(f.Pos()), "no lookup of the query key in the trie")
-			continue
-		}
-		var lv, lfound ssa.Value
-		for _, ref := range *lookup.Referrers() {
-			if ex, ok := ref.(*ssa.Extract); ok {
-				if ex.Index == 0 {
-					lv = ex
-				} else {
-					lfound = ex
-				}
-			}
-		}
-		// the reader call
-		var read *ssa.Call
-		for _, c := range callsIn(f) {
-			if call, ok := c.(*ssa.Call); ok && invokeIs(call, indexPath, "Read") {
-				read = call
-			}
-		}
-		var why []string
-		if read == nil {
-			why = append(why, "DataReader.Read is never called")
-		} else {
-			if len(read.Call.Args) != 2 || read.Call.Args[1] != key {
-				why = append(why, "the reader is not given the query key itself")
-			}
-			if len(read.Call.Args) == 2 {
-				ta, ok := read.Call.Args[0].(*ssa.TypeAssert)
-				if !ok || ta.X != lv {
-					why = append(why, "the offset given to the reader is not the value the trie returned for the key")
-				} else {
+			instrsOf(g, func(_ *ssa.BasicBlock, in ssa.Instruction) {
+				if ta, ok := in.(*ssa.TypeAssert); ok && !ta.CommaOk {
 					asserted = append(asserted, ta.AssertedType)
 				}
-			}
+			})
 		}
-		for _, ret := range returnsOf(f) {
-			if len(ret.Results) != 2 {
+		rule("C12.route")
+		r.Check(len(lookups) == 1 && len(others) == 0, "(*index.SlimIndex)."+m+" routing", p.Pos(f.Pos()), "the only library lookup is (*SlimTrie)."+m,
+			fmt.Sprintf("lookups of (*SlimTrie).%s: %v; other library calls: %v", m, lookups, others))
+		rule("C12.verify")
+		// guarded summary: [!found] -> ("", false) ; [found] -> Read(assert(value), key)
+		key := keyParamOf(f)
+		ps, why := flatten(p, f, nil, inIndex)
+		construct := "(*index.SlimIndex)." + m + " answers through the reader"
+		if why != "" || key == nil {
+			r.Unk(construct, p.Pos(f.Pos()), "cannot summarise: "+why)
+			continue
+		}
+		lookupT := "call:" + funcID(tf) + "("
+		var bad []string
+		nNF, nF := 0, 0
+		foundCond := ""
+		for _, fp := range ps {
+			if fp.panics {
+				bad = append(bad, "a path panics")
 				continue
 			}
-			r0, r1 := ret.Results[0], ret.Results[1]
-			if b, ok := constBool(r1); ok && !b {
-				if s, ok := constString(r0); !ok || s != "" {
-					why = append(why, "a not-found return carries a non-empty value")
-				}
-				// must be the branch taken when the trie says not found
-				okBranch := false
-				for _, pred := range ret.Block().Preds {
-					if iff, ok := lastInstr(pred).(*ssa.If); ok && iff.Cond == lfound && pred.Succs[1] == ret.Block() {
-						okBranch = true
-					}
-				}
-				if !okBranch {
-					why = append(why, "(\"\", false) is returned on a path other than the trie's not-found branch at "+p.Pos(ret.Pos()))
-				}
+			if len(fp.results) != 2 || len(fp.pc) != 1 {
+				bad = append(bad, "path ["+abbreviate(fp.pcKey())+"] => "+abbreviate(fp.resKey())+" is not one of the two expected cases")
 				continue
 			}
-			e0, ok0 := r0.(*ssa.Extract)
-			e1, ok1 := r1.(*ssa.Extract)
-			if !ok0 || !ok1 || read == nil || e0.Tuple != read || e1.Tuple != read || e0.Index != 0 || e1.Index != 1 {
-				why = append(why, "the return at "+p.Pos(ret.Pos())+" may report found without being the reader's result for this key (no key verification)")
+			pc := fp.pc[0]
+			fl := "extract:1(" + lookupT
+			switch {
+			case strings.HasPrefix(pc, "!"+fl) && strings.HasSuffix(pc, ","+key.Name()+"))"):
+				nNF++
+				if fp.results[0].String() != "const:\"\"" || fp.results[1].String() != "false" {
+					bad = append(bad, "the trie's not-found case returns ("+fp.resKey()+"), want (\"\", false)")
+				}
+			case strings.HasPrefix(pc, fl) && strings.HasSuffix(pc, ","+key.Name()+"))"):
+				nF++
+				foundCond = pc
+				lk := strings.TrimPrefix(pc, "extract:1(")
+				lk = strings.TrimSuffix(lk, ")")
+				r0, r1 := fp.results[0].String(), fp.results[1].String()
+				okRead := strings.HasPrefix(r0, "extract:0(call:invoke.Read(") && strings.HasPrefix(r1, "extract:1(call:invoke.Read(") &&
+					strings.TrimPrefix(r0, "extract:0(") == strings.TrimPrefix(r1, "extract:1(")
+				okArgs := strings.Contains(r0, "(extract:0("+lk+"))") && strings.HasSuffix(r0, ","+key.Name()+"))") && strings.Contains(r0, ",assert:")
+				if !okRead {
+					bad = append(bad, "the found case returns "+abbreviate(fp.resKey())+", not the reader's own result pair: an answer without key verification")
+				} else if !okArgs {
+					bad = append(bad, "the reader is not called with (the value the trie returned for the key, the key): "+abbreviate(r0))
+				}
+			default:
+				bad = append(bad, "path condition ["+abbreviate(pc)+"] is not the found flag of (*SlimTrie)."+m+"(key)")
 			}
 		}
-		r.Check(len(why) == 0, "(*index.SlimIndex)."+m+" answers through the reader", p.Pos(f.Pos()), "returns (\"\",false) on the trie's not-found branch, else DataReader.Read(offset.(T), key) unchanged", strings.Join(why, "; "))
+		_ = foundCond
+		if nNF != 1 || nF != 1 {
+			bad = append(bad, fmt.Sprintf("%d not-found and %d found cases, want one each", nNF, nF))
+		}
+		r.Check(len(bad) == 0, construct, p.Pos(f.Pos()), "not found -> (\"\", false); found -> DataReader.Read(value.(T), key) unchanged", strings.Join(dedupStrings(sortStr(bad)), "; "))
 	}
 
 	// ---- type agreement
@@ -165,7 +168,7 @@ func checkC12(p *Program, r *Report) {
 			}
 		}
 	}
-	okT := boxed != nil && len(asserted) == 2
+	okT := boxed != nil && len(asserted) >= 1
 	for _, a := range asserted {
 		if boxed == nil || !types.Identical(a, boxed) {
 			okT = false
